@@ -97,6 +97,8 @@ type c18Call struct {
 	srvRecv     atomic.Int32
 	srvAnswered atomic.Int32
 	srvStream   atomic.Int64
+	ansStream   atomic.Int64 // stream and position (response message number) of the server's answer
+	ansSeq      atomic.Int64
 }
 
 func (c *c18Call) doCancel() {
@@ -110,7 +112,7 @@ func (c *c18Call) describe() map[string]any {
 	m := map[string]any{
 		"id": c.id, "api": map[bool]string{false: "sync", true: "async"}[c.async], "kind": c18KindName[c.kind], "pri": c.pri,
 		"fwd": c.fwd, "timeout_ms": c.timeout.Milliseconds(), "cancel": c18CancelName[c.cancelMode],
-		"srv_mode": [...]string{"echo", "drop", "slow"}[c.srvMode], "returns": c.returns.Load(),
+		"srv_mode": [...]string{"echo", "drop", "slow", "kill"}[c.srvMode], "returns": c.returns.Load(),
 		"srv_received": c.srvRecv.Load(), "srv_answered": c.srvAnswered.Load(), "srv_stream": c.srvStream.Load(),
 	}
 	if c.err != nil {
@@ -159,7 +161,7 @@ type c18Scn struct {
 }
 
 var c18Shapes = []string{"clean", "timeouts-cancels", "streamkill", "restart", "restart-fwd", "streamkill-fwd",
-	"closeaddr", "close-midway", "limit", "unary", "tiny-batch", "overload-wait", "mixed", "many-callers"}
+	"closeaddr", "closeaddr-async", "close-midway", "limit", "unary", "tiny-batch", "overload-wait", "mixed", "many-callers"}
 
 func c18GenScn(rng *rand.Rand, idx int, shape string) *c18Scn {
 	pick := func(v ...int) int { return v[rng.Intn(len(v))] }
@@ -170,7 +172,7 @@ func c18GenScn(rng *rand.Rand, idx int, shape string) *c18Scn {
 		Callers: pick(1, 2, 4, 16, 48, 128), AsyncPct: 30, NoDeadlinePct: 60, ShortPct: 6, CancelPct: 6, HighPriPct: 20, UnaryPct: 3,
 		LongTimeout: 2 * time.Second, HoldPct: 30, ShufflePct: 30, FeedbackPct: 10,
 	}
-	total := vrep.Pick(500, 3000) + rng.Intn(vrep.Pick(400, 3000))
+	total := vrep.Pick(500, 1500) + rng.Intn(vrep.Pick(400, 1500))
 	switch shape {
 	case "clean":
 		s.ShortPct, s.CancelPct = 0, 0
@@ -196,6 +198,14 @@ func c18GenScn(rng *rand.Rand, idx int, shape string) *c18Scn {
 	case "closeaddr":
 		s.CloseAddrAt = []int64{int64(total / 4), int64(total / 2), int64(3 * total / 4)}
 		s.AsyncPct = 50
+	case "closeaddr-async":
+		// mostly deadline-less async requests racing with repeated pool closes: whatever is queued in a pool that
+		// gets closed has to be completed all the same
+		s.AsyncPct, s.NoDeadlinePct, s.ShortPct, s.CancelPct = 90, 80, 2, 2
+		s.Callers = pick(16, 48, 128)
+		for k := 1; k <= 7; k++ {
+			s.CloseAddrAt = append(s.CloseAddrAt, int64(k*total/8))
+		}
 	case "close-midway":
 		s.CloseAt = int64(total/3 + rng.Intn(total/3))
 		s.AsyncPct = 50
@@ -229,10 +239,15 @@ func c18GenScn(rng *rand.Rand, idx int, shape string) *c18Scn {
 		s.Fwd = true
 		s.CloseAddrAt = []int64{int64(2 * total / 3)}
 		s.ShortPct, s.CancelPct = 10, 10
+	case "directed-stale-epoch-fwd", "directed-stale-epoch-direct":
+		s.MaxBatch, s.Conns, s.Fwd, s.HoldPct, s.ShufflePct, s.Callers = 128, 1, true, 0, 0, 1
 	case "many-callers":
 		s.Callers = 256
 		s.KillProb, s.KillMin, s.KillMax = 0.3, 20, 200
 		s.Fwd = rng.Intn(2) == 0
+	}
+	if s.Callers == 0 {
+		s.Callers = 1
 	}
 	s.PerCaller = total / s.Callers
 	if s.PerCaller < 2 {
@@ -625,8 +640,16 @@ func c18RunScenario(t *testing.T, r *vrep.Report, scn *c18Scn, factor int) []str
 		}
 	}()
 
-	// ---- callers
+	// ---- callers (or the script of a directed scenario)
 	var wg sync.WaitGroup
+	if script := c18Directed[scn.Shape]; script != nil {
+		wg.Add(1)
+		go func() {
+			defer wg.Done()
+			script(run)
+		}()
+		scn.Callers = 0
+	}
 	callerSeeds := make([]int64, scn.Callers)
 	for i := range callerSeeds {
 		callerSeeds[i] = rng.Int63()
@@ -724,9 +747,13 @@ joinLoop:
 	run.mu.Lock()
 	all := append([]*c18Call(nil), run.all...)
 	run.mu.Unlock()
+	run.lostResponseCheck(all)
 	// (a closed or broken connection is noticed by waitConnReady only after the dial time-out, so that long a
 	// deadline-less call may legitimately stay pending)
 	pending := c18WaitAll(all, scn.LongTimeout+dialTimeout+time.Duration(factor)*2*time.Second)
+	if len(pending) > 0 {
+		run.lostResponseCheck(all)
+	}
 	pendingBeforeClose := pending
 	if len(pendingBeforeClose) > 0 && r.SampleN() < 6 {
 		r.Sample(map[string]any{"what": "pending when the scenario had settled (watchdog, not a verdict)", "scenario": scn.Idx, "factor": factor, "call": pendingBeforeClose[0].describe()})
@@ -928,8 +955,11 @@ func TestVerifC18BatchMultiplex(t *testing.T) {
 	r := vrep.New("C18", "c18-batch-multiplex", "real RPCClient against a scripted gRPC echo server; one evaluation per call (exactly-once, identity, result shape, watchdog) and per stream re-creation (FIFO completion check); distinct = scenario classes (shape, batch/conn config, forwarding, set of outcome kinds, faults that actually happened) in which at least one call succeeded while responses were reordered/held/split or other calls failed")
 	defer r.Finish(t)
 	rng := vrep.Rand("c18-scenarios")
-	reps := vrep.Pick(2, 12)
+	reps := vrep.Pick(2, 8)
 	var scns []*c18Scn
+	for _, sh := range []string{"directed-stale-epoch-fwd", "directed-stale-epoch-direct"} {
+		scns = append(scns, c18GenScn(rng, len(scns), sh))
+	}
 	for rep := 0; rep < reps; rep++ {
 		for _, sh := range c18Shapes {
 			scns = append(scns, c18GenScn(rng, len(scns), sh))
@@ -1026,4 +1056,111 @@ func c18Common(a, b []string) []string {
 		}
 	}
 	return out
+}
+
+// ---- directed scenarios (same monitors, scripted instead of random callers)
+
+var c18Directed = map[string]func(run *c18Run){
+	"directed-stale-epoch-fwd":    c18ScriptStaleEpoch("", "fwd-a:20160"),
+	"directed-stale-epoch-direct": c18ScriptStaleEpoch("fwd-a:20160", ""),
+}
+
+// c18ScriptStaleEpoch: one connection carries a direct and a forwarded stream.  The stream `first` fails and is
+// re-created; later the stream `second` fails while async requests without deadline are pending on it.  Every
+// stream failure has to fail the pending requests of that stream — whatever happened to its siblings before.
+func c18ScriptStaleEpoch(first, second string) func(run *c18Run) {
+	return func(run *c18Run) {
+		seq := 0
+		mk := func(async bool, fwd string, srvMode int, timeout time.Duration) *c18Call {
+			c := &c18Call{caller: -2, seq: seq, done: make(chan struct{}), kind: seq % (c18NKinds - 1), fwd: fwd, async: async, srvMode: srvMode,
+				timeout: timeout, id: fmt.Sprintf("v%d.%d/directed/q%d", run.factor, run.scn.Idx, seq)}
+			seq++
+			return c
+		}
+		lt := run.scn.LongTimeout
+		for _, f := range []string{first, second} { // open both streams
+			run.issue(mk(false, f, c18SrvEcho, lt))
+		}
+		run.issue(mk(false, first, c18SrvKill, lt)) // the first stream breaks and is re-created
+		for i := 0; i < 300; i++ {
+			c := mk(false, first, c18SrvEcho, lt)
+			run.issue(c)
+			if c.err == nil {
+				break
+			}
+			time.Sleep(10 * time.Millisecond)
+		}
+		var parked []*c18Call
+		for i := 0; i < 3; i++ { // requests that the server keeps unanswered on the second stream
+			c := mk(true, second, c18SrvDrop, 0)
+			run.issue(c)
+			parked = append(parked, c)
+		}
+		for i := 0; i < 2000; i++ {
+			n := 0
+			for _, c := range parked {
+				if c.srvRecv.Load() > 0 || c.returns.Load() > 0 {
+					n++
+				}
+			}
+			if n == len(parked) {
+				break
+			}
+			time.Sleep(time.Millisecond)
+		}
+		run.count("directed_parked_calls", len(parked))
+		run.issue(mk(false, second, c18SrvKill, lt)) // now the second stream breaks
+		// the recovery probes of the common tail drive the re-created streams; the FIFO check decides
+	}
+}
+
+// lostResponseCheck is the second logical part of clause (4).  gRPC delivers the messages of one stream in order, so
+// when a call B completed with the response the server sent as message q of stream S, the client's recv loop has
+// consumed every earlier message p<q of S.  Whatever it did with the response of an async call A in message p —
+// dispatch it, or drop it because A had been cancelled or failed before — A's callback has been queued by then, and
+// once the FIFO run loop has drained up to a marker, it has run.  An A that is still not completed has lost its
+// response for good.
+func (run *c18Run) lostResponseCheck(all []*c18Call) {
+	maxOK := map[int64]int64{}
+	for _, c := range all {
+		if c.returns.Load() == 0 {
+			continue
+		}
+		c.mu.Lock()
+		ok := c.err == nil
+		c.mu.Unlock()
+		if st, q := c.ansStream.Load(), c.ansSeq.Load(); ok && st != 0 && q > maxOK[st] {
+			maxOK[st] = q
+		}
+	}
+	var cand []*c18Call
+	for _, c := range all {
+		if c.async && c.returns.Load() == 0 && !c.flagged.Load() && c.srvAnswered.Load() > 0 && c.ansSeq.Load() < maxOK[c.ansStream.Load()] {
+			cand = append(cand, c)
+		}
+	}
+	if len(cand) == 0 {
+		return
+	}
+	drained := make(chan struct{})
+	run.rl.Append(func() { close(drained) })
+	select {
+	case <-drained:
+	case <-time.After(20 * time.Second):
+		run.harnessError("run loop did not drain")
+		return
+	}
+	run.r.Eval(1)
+	run.count("lost_response_checks", 1)
+	var bad []*c18Call
+	for _, c := range cand {
+		if c.returns.Load() == 0 && !c.flagged.Swap(true) {
+			bad = append(bad, c)
+		}
+	}
+	if len(bad) > 0 {
+		run.violate("async:response-consumed-but-call-not-completed",
+			fmt.Sprintf("%d async call(s) were answered by the server, later messages of the same stream have been delivered to their callers, yet these calls are not completed (first: %s, stream #%d message %d)",
+				len(bad), bad[0].id, bad[0].ansStream.Load(), bad[0].ansSeq.Load()), bad...)
+	}
 }
